@@ -110,6 +110,7 @@ pub fn run(job: &Value, t: &mut Trace) -> usize {
         let channels = j["channels"].as_u64().unwrap_or(2) as u8;
         let bps = j["bps"].as_u64().unwrap_or(16) as u32;
         let frames = j["frames"].as_u64().unwrap() as usize;
+        let rate = j["rate"].as_u64().unwrap_or(44100) as u32;
         let declared = j["declared"].as_bool().unwrap_or(false);
         let every_byte = j["every_byte"].as_bool().unwrap_or(false);
         let mut rng = Rng::new(j["seed"].as_u64().unwrap_or(5));
@@ -133,7 +134,7 @@ pub fn run(job: &Value, t: &mut Trace) -> usize {
             "byte-le" => {
                 let bytes = samples_to_bytes(&pcm, bps, false);
                 let mut w: FlacByteWriter<_, LittleEndian> =
-                    FlacByteWriter::new(sink.clone(), opts, 44100, bps, channels, declared.then_some(total_units)).map_err(|e| e.to_string())?;
+                    FlacByteWriter::new(sink.clone(), opts, rate, bps, channels, declared.then_some(total_units)).map_err(|e| e.to_string())?;
                 for part in bytes.chunks(chunk * upf) {
                     if w.write_all(part).is_err() {
                         break;
@@ -144,7 +145,7 @@ pub fn run(job: &Value, t: &mut Trace) -> usize {
                 Ok(b)
             }
             "sample" => {
-                let mut w = FlacSampleWriter::new(sink.clone(), opts, 44100, bps, channels, declared.then_some(total_units)).map_err(|e| e.to_string())?;
+                let mut w = FlacSampleWriter::new(sink.clone(), opts, rate, bps, channels, declared.then_some(total_units)).map_err(|e| e.to_string())?;
                 for part in pcm.chunks(chunk * ch) {
                     if w.write(part).is_err() {
                         break;
@@ -156,7 +157,7 @@ pub fn run(job: &Value, t: &mut Trace) -> usize {
             }
             _ => {
                 let cols: Vec<Vec<i32>> = (0..ch).map(|c| pcm.iter().skip(c).step_by(ch).copied().collect()).collect();
-                let mut w = FlacChannelWriter::new(sink.clone(), opts, 44100, bps, channels, declared.then_some(total_units)).map_err(|e| e.to_string())?;
+                let mut w = FlacChannelWriter::new(sink.clone(), opts, rate, bps, channels, declared.then_some(total_units)).map_err(|e| e.to_string())?;
                 let mut at = 0;
                 while at < frames {
                     let n = chunk.min(frames - at);
